@@ -40,7 +40,9 @@ RULE = (
     "literal, apply ORIGIN_CALL_OUT, local call through tramp_f, (: f :) through fp_f, function_exists} = 46..60 calls; cold "
     "result of each; '::f()' from every level and 'P::f()' for each parent probed on every target; the set is compiled a second "
     "time under another path (other program ids) and all cold results compared. Histories: all sequences of length <= L over the "
-    "alphabet, plus breadth-first over distinct apply-cache contents (every content x every call) to depth 8 (2-entry cache: the "
+    "alphabet (+ [a; d], [d; a] and, for L >= 3, [a; d; b] for every call a, b and every call d = a call_other to f issued at the "
+    "maximum call depth, so that the callee's frame raises 'Too deep recursion' inside apply_low; after every history the apply "
+    "cache is cleared and the reference count of every name string must be back at its cold value), plus breadth-first over distinct apply-cache contents (every content x every call) to depth 8 (2-entry cache: the "
     "content space closes, counter elements_whose_cache_state_space_closed) or 3 (2048 entries). Salts: program-id parity x "
     "name-string allocation order (function tables are sorted by string address). bin parts: every set written to disk, "
     "compiled with #pragma save_binary, destructed, loaded again from the saved binaries (wrap of load_binary counts them), cold "
@@ -83,8 +85,17 @@ def _cov(ck):
 
 
 def run(ck):
+    import os
     ex = build(ck)
     T = 120000
+    # the deadlines below fit the tier limits on an idle 16-core machine (quick needs ~1000 core-seconds, thorough ~16000);
+    # on a machine shared with other runs VERIF_C07_DEADLINE_SCALE=<k> stretches them so that the parts still complete
+    k = float(os.environ.get("VERIF_C07_DEADLINE_SCALE", "1") or 1)
+    _enum = ck.enum
+    def enum(exe, args, tag, **kw):
+        kw["deadline_s"] = int(kw.get("deadline_s", 0) * k)
+        return _enum(exe, args, tag, **kw)
+    ck.enum = enum
     if ck.tier == "quick":
         ck.enum(ex["h_c07_small"], ["--len=1", "--salts=1"], "small-l1-asan", batch=1, deadline_s=50, timeout_ms=T)
         ck.enum(ex["h_c07_small_plain"], ["--len=2", "--prune-depth=8", "--salts=1", "--no-compress=1"], "small-l2", batch=1, deadline_s=70, timeout_ms=T)
